@@ -35,5 +35,28 @@ LOOPS = {
     "i=1::i tm=1::tm brrw=1::brrw a_count=a_count b_count=b_count a=a")],
 }
 
+
+# ---- rung 3 loop functions (callees replaced by contracts; invariants speak about well-formedness only)
+def WFP(p):   # p is a pointer expression
+    return "(%s->count >= 1 && %s->count <= ${MAXD} && %s->digits <= %s->count && (%s->digits == 0 || %s->num[%s->digits - 1] != 0))" % ((p,) * 7)
+def WFS(v):   # v is a struct lvalue
+    return "(%s.count >= 1 && %s.count <= ${MAXD} && %s.digits <= %s.count && (%s.digits == 0 || %s.num[%s.digits - 1] != 0))" % ((v,) * 7)
+def FRP(p):
+    return "%s->digits, __CPROVER_object_upto(%s->num, ${MAXD} * ${SZ})" % (p, p)
+def FRS(v):
+    return "%s.digits, __CPROVER_object_upto(%s.num, ${MAXD} * ${SZ})" % (v, v)
+
+LOOPS.update({
+ "bn_mod_exp_digit": [L("bn_mod_exp_digit", 9,
+    WFP("bn") + " && " + WFS("base"), "exp, " + FRP("bn") + ", " + FRS("base"), "exp",
+    "bn=bn exp=exp base=1::base")],
+ "bn_mod_exp": [L("bn_mod_exp", 6,
+    "i <= bits && " + WFP("bn") + " && " + WFS("base"), "i, " + FRP("bn") + ", " + FRS("base"), "bits - i",
+    "bn=bn i=1::i bits=1::bits base=1::base")],
+ "bn_exp_digit": [L("bn_exp_digit", 7,
+    WFP("bn") + " && " + WFS("base"), "exp, " + FRP("bn") + ", " + FRS("base"), "exp",
+    "bn=bn exp=exp base=1::base")],
+})
+
 def compose(fns):
     return {"functions": [{fn: LOOPS[fn]} for fn in fns]}
